@@ -476,6 +476,22 @@ func genRobust(c *ctx, emit func(ev)) {
 	suite("ed25519.Verify", w.edSig, nil, false)
 	suite("ed25519.Verify/key", w.edPub, nil, false)
 	suite("util.UnmarshalTokenKey", w.spki, []lenField{{1, "u8"}, {2, "u16"}, {5, "u8"}}, true)
+	// type-5 requests / responses in which SEVERAL elements do not decode (positions 1 and 2, all, first and last)
+	for _, fn := range []string{"t5.Evaluate", "t5.FinalizeTokens/3"} {
+		h := w.honestIn[fn]
+		off := robustListOffset[map[string]string{"t5.Evaluate": "t5.UnmarshalRequest", "t5.FinalizeTokens/3": "t5.FinalizeTokens/3"}[fn]]
+		if l, wd := quicwire.ConsumeVarint(h[off:]); wd > 0 && int(l) == 96 {
+			for _, bad := range [][]int{{1, 2}, {0, 1, 2}, {0, 2}, {0, 1}} {
+				b := append([]byte{}, h...)
+				for _, k := range bad {
+					for j := 0; j < 32; j++ {
+						b[off+wd+32*k+j] = 0xff
+					}
+				}
+				call(fn, b, false)
+			}
+		}
+	}
 	// list decoders alone, on honest lists and on well-formed lists of thousands of honest elements
 	for _, fn := range []string{"batched.Unmarshal", "batched.UnmarshalResponses", "t5.UnmarshalRequest"} {
 		suite(fn, w.honestIn[fn], []lenField{{robustListOffset[fn], "varint"}}, true)
